@@ -561,6 +561,56 @@ func runC17(b *runner.Batch) {
 		}
 		b.Hit("candidate-removes-itself")
 	}
+	// the same when an Alphabet key witnesses the transaction too (co-signed, either order), and when the
+	// candidate is itself one of the stored Alphabet keys: the candidate's own request is executed at once and
+	// is nobody's vote (seeded change C17-7)
+	for variant := 0; variant < 3 && len(v.alphabet) > 0; variant++ {
+		var ck *keys.PrivateKey
+		var signers []world.SignerSpec
+		var alphaKey *keys.PrivateKey
+		for _, pk := range v.pool {
+			if v.isAlpha(pk.PublicKey().Bytes()) {
+				alphaKey = pk
+				break
+			}
+		}
+		if alphaKey == nil {
+			break
+		}
+		switch variant {
+		case 0:
+			ck = world.Key(b.Seed, b.Index, "cand-cosigned", 0)
+			signers = []world.SignerSpec{world.G(world.Single(ck)), world.G(world.Single(alphaKey))}
+		case 1:
+			ck = world.Key(b.Seed, b.Index, "cand-cosigned", 1)
+			signers = []world.SignerSpec{world.G(world.Single(alphaKey)), world.G(world.Single(ck))}
+		default:
+			ck = alphaKey
+			signers = []world.SignerSpec{world.G(world.Single(ck))}
+		}
+		pb := ck.PublicKey().Bytes()
+		v.w.FundGAS(world.Hash160Of(ck), 10_0000_0000)
+		v.addCandidate(ck)
+		if !v.cands[hex.EncodeToString(pb)] {
+			b.Inconclusive("candidate registration failed in the self-removal variants")
+			break
+		}
+		rr := v.w.Invoke(signers, v.nfs, "innerRingCandidateRemove", pb)
+		b.Tx(1)
+		delete(v.cands, hex.EncodeToString(pb))
+		if !rr.Halted() || v.candidates()[hex.EncodeToString(pb)] {
+			b.Violation(fmt.Sprintf("a candidate's own removal request (variant %d: co-signed by / being an Alphabet key) was not executed at once", variant), v.w.RenderResult(rr, true))
+		}
+		// and it left no vote behind: threshold votes are still needed to remove it after a new registration
+		// (not for the candidate that is an Alphabet key itself: its own vote would be its own request again)
+		if v.threshold() >= 2 && variant < 2 {
+			v.addCandidate(ck)
+			for c := 0; c < v.threshold(); c++ {
+				v.runBlock([]*call{v.candRemoveCall(c, pb)})
+			}
+		}
+		b.Hit("candidate-removes-itself-with-an-alphabet-witness-present")
+	}
 	// a decision about a key that is not listed: the votes reach the threshold (nothing to remove, but the
 	// ballot ends there), the key registers, and the next votes are a fresh round: one vote must not remove it
 	// (unless the threshold is one), the threshold-th does (seeded change C17-5)
@@ -666,7 +716,7 @@ func init() {
 		Assumptions: []string{"neo-go v0.107.0 VM, ledger and native contracts are the trusted base", "contracts are compiled at check time from /repo/contracts", "a call witnessed by several Alphabet keys is not generated (the contract counts the first one)"},
 		Batches:     c17Batches, Chunk: 2, Helpers: []string{"reenter"},
 		Floors: []string{"exhaustive-sequences", "fired-at-threshold-n1", "fired-at-threshold-n2", "fired-at-threshold-n3", "fired-at-threshold-n4", "fired-at-threshold-n5", "fired-at-threshold-n6", "fired-at-threshold-n7",
-			"stranger-call", "duplicate-vote", "stale-ballot-expired", "ballot-survives-gap-20", "several-votes-in-one-block", "fired:setConfig", "fired:cheque", "fired:alphabetUpdate", "fired:innerRingCandidateRemove", "candidate-removes-itself", "removal-vote-for-a-key-that-is-not-listed", "decision-about-an-unlisted-key-then-registration", "cheque-receiver-re-enters"},
+			"stranger-call", "duplicate-vote", "stale-ballot-expired", "ballot-survives-gap-20", "several-votes-in-one-block", "fired:setConfig", "fired:cheque", "fired:alphabetUpdate", "fired:innerRingCandidateRemove", "candidate-removes-itself", "removal-vote-for-a-key-that-is-not-listed", "decision-about-an-unlisted-key-then-registration", "cheque-receiver-re-enters", "candidate-removes-itself-with-an-alphabet-witness-present"},
 		Run: runC17,
 		Exhaustive: func(tier string) (bool, string) {
 			l := 3
